@@ -18,13 +18,14 @@ func init() {
 		Explanation: "Decides the parts of C13 that are visible in the shape of the code for every record content: (R1) the library's call graph (static calls, closures, VTA-resolved dynamic calls; goroutine spawns excluded) has no cycle, so the stack is bounded whatever the record holds; " +
 			"(R2) every json.Unmarshal of record-derived bytes has its error tested and neither a leadership claim nor an Update/Delete of the record is reachable from the error edge; " +
 			"(R3) no unchecked (non comma-ok) type assertion and no indexing is applied to record-derived values; (R4) every loop that can issue store operations, or that has no exit, blocks on every cycle (select without default, channel receive, timer); " +
-			"(R5) Watcher.Updates is idempotent (shared with C14-R1).",
+			"(R5) Watcher.Updates is idempotent (shared with C14-R1); (R6) a takeover is attempted only against a record whose decoded payload names a leader, so a live record that is valid JSON but not a leadership payload is never overwritten (shared with C10-R1).",
 		NotDecided: []string{"that a leader whose record was tampered with is demoted within the C03/C04 bounds (timing; see C03, C04)", "behaviour of encoding/json itself on adversarial input (trusted)", "memory use for very large records"},
 		Assumptions: []string{"encoding/json.Unmarshal does not panic and terminates on every input", "record-derived values are those obtained from Entry.Value() or decoded from it in the same function"},
 		Rules: map[string]string{
 			"R1": "the call graph restricted to the library package is acyclic (Tarjan SCC over static + closure + VTA edges, `go` edges excluded)",
 			"R2": "every json.Unmarshal whose input derives from Entry.Value() has its error compared with nil; from the err != nil edge no claim-set unit and no Update/Delete store operation is reachable (Create is allowed)",
 			"R3": "every TypeAssert on a record-derived operand is comma-ok; no Index/Slice with a non-constant index on record-derived bytes",
+			"R6": "every takeover Update is guarded by NOT (\"\" == decoded.ID): a live record that is valid JSON but no leadership payload is never overwritten (shared with C10-R1)",
 			"R4": "every CFG cycle that reaches a store operation or has no exit contains a blocking instruction on every path round the cycle",
 			"R5": "see C14-R1",
 		},
@@ -332,6 +333,9 @@ func checkC13(c *Ctx) {
 
 	// ---- R5 --------------------------------------------------------------------
 	watcherUpdatesRule(c, "R5")
+
+	// ---- R6 --------------------------------------------------------------------
+	takeoverNamesLeaderRule(c, "R6")
 }
 
 // ordinalOf numbers the instructions of f satisfying pred in source order; returns the number of `in`.
